@@ -51,7 +51,7 @@ def run(ctx):
     ctx.touch(imp)
     n_sig = 0
     for loop in [n for n in own_nodes(imp.node) if isinstance(n, ast.For)]:
-        adds = [c for c in ast.walk(loop) if isinstance(c, ast.Call) and norm(c.func) == "part.add" and c.args
+        adds = [c for c in ast.walk(loop) if isinstance(c, ast.Call) and isinstance(c.func, ast.Attribute) and c.func.attr == "add" and c.args
                 and isinstance(c.args[0], ast.Call) and norm(c.args[0].func) in ("score.TimeSignature", "score.KeySignature")]
         if not adds:
             continue
@@ -68,13 +68,17 @@ def run(ctx):
     ctx.rule("F10-sib", "part_from_matchfile: every int() of an expression that multiplies by `divs` rounds first (positions on "
                         "the timeline are nearest-integer images of quarter times)")
     n = 0
+    # the divisions variable, by role: the local defined as np.lcm.reduce(...)
+    divs_names = {norm(a.targets[0]) for a in own_nodes(imp.node) if isinstance(a, ast.Assign) and isinstance(a.value, ast.Call)
+                  and norm(a.value.func) == "np.lcm.reduce" and isinstance(a.targets[0], ast.Name)}
+    ctx.require(divs_names, "F10-sib", imp.qname, "divisions variable (np.lcm.reduce) not found")
     for c in own_nodes(imp.node):
         if isinstance(c, ast.Call) and isinstance(c.func, ast.Name) and c.func.id == "int" and len(c.args) == 1:
             arg = c.args[0]
             # a *position*: divs * (<quarter time> - offset); pure product chains (durations of exact fractions) are not judged
             if any(isinstance(b, ast.BinOp) and isinstance(b.op, ast.Mult)
-                   and ((isinstance(b.left, ast.Name) and b.left.id == "divs" and isinstance(b.right, ast.BinOp) and isinstance(b.right.op, (ast.Add, ast.Sub)))
-                        or (isinstance(b.right, ast.Name) and b.right.id == "divs" and isinstance(b.left, ast.BinOp) and isinstance(b.left.op, (ast.Add, ast.Sub))))
+                   and ((isinstance(b.left, ast.Name) and b.left.id in divs_names and isinstance(b.right, ast.BinOp) and isinstance(b.right.op, (ast.Add, ast.Sub)))
+                        or (isinstance(b.right, ast.Name) and b.right.id in divs_names and isinstance(b.left, ast.BinOp) and isinstance(b.left.op, (ast.Add, ast.Sub))))
                    for b in ast.walk(arg)):
                 n += 1
                 rounded = isinstance(arg, ast.Call) and norm(arg.func) in ("round", "np.round", "np.rint")
@@ -117,25 +121,30 @@ def run(ctx):
         kw = {k.arg: norm(k.value) for k in c.keywords}
         ctx.check(kw.get("mpq") == "mpq" and kw.get("ppq") == "ppq", "CLOCK", f"exporter converts with (mpq, ppq): {norm(c)[:40]}", func=exp, node=c,
                   construct="export-conversion-clock", msg=f"`{norm(c)[:80]}` must use the mpq/ppq written into the header")
-    defs = {norm(a.targets[0]): norm(a.value) for a in own_nodes(pp.node) if isinstance(a, ast.Assign) and norm(a.targets[0]) in ("mpq", "ppq")}
-    ctx.check(defs.get("mpq") == "mf.info('midiClockRate')" and defs.get("ppq") == "mf.info('midiClockUnits')", "CLOCK", "importer reads the header clock",
+    defs = {norm(a.value): norm(a.targets[0]) for a in own_nodes(pp.node) if isinstance(a, ast.Assign) and isinstance(a.targets[0], ast.Name)
+            and norm(a.value) in ("mf.info('midiClockRate')", "mf.info('midiClockUnits')")}
+    i_mpq, i_ppq = defs.get("mf.info('midiClockRate')"), defs.get("mf.info('midiClockUnits')")
+    ctx.check(i_mpq is not None and i_ppq is not None, "CLOCK", "importer reads the header clock",
               func=pp, construct="import-clock-source", msg=f"importer clock: {defs}")
     for c in [c for c in own_nodes(pp.node) if isinstance(c, ast.Call) and norm(c.func) == "midi_ticks_to_seconds"]:
-        ok = [norm(a) for a in c.args[1:]] == ["mpq", "ppq"] or {k.arg: norm(k.value) for k in c.keywords} == {"mpq": "mpq", "ppq": "ppq"}
+        ok = [norm(a) for a in c.args[1:]] == [i_mpq, i_ppq] or {k.arg: norm(k.value) for k in c.keywords} == {"mpq": i_mpq, "ppq": i_ppq}
         ctx.check(ok, "CLOCK", f"importer converts with (mpq, ppq): {norm(c)[:40]}", func=pp, node=c, construct="import-conversion-clock",
                   msg=f"`{norm(c)[:80]}` must convert with the file's clock")
     ctor = [c for c in own_nodes(pp.node) if isinstance(c, ast.Call) and norm(c.func) == "PerformedPart"]
     ctx.require(len(ctor) == 1, "CLOCK", pp.qname, "PerformedPart construction not found")
     kw = {k.arg: norm(k.value) for k in ctor[0].keywords}
-    ctx.check(kw.get("ppq") == "ppq" and kw.get("mpq") == "mpq", "CLOCK", "PerformedPart carries the file's clock", func=pp, node=ctor[0],
+    ctx.check(kw.get("ppq") == i_ppq and kw.get("mpq") == i_mpq and i_ppq is not None, "CLOCK", "PerformedPart carries the file's clock", func=pp, node=ctor[0],
               construct="ppart-clock-dropped",
               msg="performed_part_from_match builds the PerformedPart without the file's ppq/mpq: clock units and rate are lost "
                   "(the part reports ticks under the default 480/500000)")
     # ---- labels
     ctx.rule("F6-labels", "alignment labels: the exporter dispatches exactly {match, deletion, insertion, ornament}; the importer produces exactly those")
-    chain = find_chain(exp, "label", 3)
+    labv = [norm(a.targets[0]) for a in own_nodes(exp.node) if isinstance(a, ast.Assign) and isinstance(a.value, ast.Subscript)
+            and isinstance(a.value.slice, ast.Constant) and a.value.slice.value == "label" and isinstance(a.targets[0], ast.Name)]
+    ctx.require(len(labv) == 1, "F6-labels", exp.qname, "label variable not found")
+    chain = find_chain(exp, labv[0], 3)
     ctx.require(chain is not None, "F6-labels", exp.qname, "label dispatch not found")
-    disp = {v for b in lift_chain(chain, "label") if b.kind == "eq" for v in b.values}
+    disp = {v for b in lift_chain(chain, labv[0]) if b.kind == "eq" for v in b.values}
     na = prog.func(f"{IM}:note_alignment_from_matchfile", "F6-labels")
     ctx.touch(na)
     prod = {k.value.value for c in own_nodes(na.node) if isinstance(c, ast.Call) and norm(c.func) == "dict" for k in c.keywords
